@@ -15,6 +15,7 @@ import (
 	"fmt"
 	"math/big"
 	"runtime"
+	"runtime/debug"
 	"strings"
 	"time"
 
@@ -144,6 +145,7 @@ type sim struct {
 	deadStops []func() // Stop calls of nodes that died inside a stimulus (may block forever)
 
 	intents map[common.Hash]*intent // what each submitted transaction asked for
+	escrow  *big.Int                // Σ value detained by applied create/deposit/delegation-add transactions of the running period
 	g       *genState
 }
 
@@ -151,14 +153,31 @@ type sim struct {
 // calling goroutine with runtime.Goexit, hook H2) ends the helper, not the simulator.
 // It reports whether f ran to completion. The caller must not be inside kit.Wait (f may call it).
 func (s *sim) do(f func()) bool {
-	done := make(chan bool, 1)
+	type res struct {
+		ok bool
+		bp *kit.BubblePanic
+	}
+	done := make(chan res, 1)
 	go func() {
 		ok := false
-		defer func() { done <- ok }()
+		defer func() {
+			// a genuine panic of the code under test travels to the simulator goroutine with
+			// the stack it happened on (kit classifies panics by their first frame);
+			// runtime.Goexit (simulated Crit) makes recover return nil
+			if v := recover(); v != nil {
+				done <- res{false, &kit.BubblePanic{Val: v, Stack: string(debug.Stack())}}
+				return
+			}
+			done <- res{ok, nil}
+		}()
 		f()
 		ok = true
 	}()
-	return <-done
+	x := <-done
+	if x.bp != nil {
+		panic(x.bp)
+	}
+	return x.ok
 }
 
 // runSim executes body inside a bubble with a started builder. It is this package's variant of
@@ -171,7 +190,7 @@ func runSim(r *kit.Run, body func(s *sim)) {
 	crand.Reader = kit.NewStream(r.Seed, r.Index)
 	sc := drawScale(r.C)
 	restore := applyScale(sc)
-	s := &sim{r: r, c: r.C, sc: sc, intents: map[common.Hash]*intent{}}
+	s := &sim{r: r, c: r.C, sc: sc, intents: map[common.Hash]*intent{}, escrow: new(big.Int)}
 	defer func() {
 		crand.Reader = oldRand
 		logging.SimCrit = nil
